@@ -60,7 +60,7 @@ Proof. exact TunnelProofs.parse_render. Qed.
 
 (* Malformed tunnelled requests are answered 400 before routing: a multipart message (of any number of parts) without a
    query part, without a body part, or with a part of another type; the override header together with a URL query; a
-   multipart body whose framing cannot be read. *)
+   multipart body whose framing cannot be read; the override header with any other content type or none (fix ee52010). *)
 Theorem malformed_tunnel_rejected :
   (forall b verb path other ps,
      boundary_ok b = true -> verb <> [] -> parts_ok b ps = true ->
@@ -73,14 +73,13 @@ Theorem malformed_tunnel_rejected :
      opt_nonempty (w_override r) = Some tm -> w_method r = http_post -> w_rawquery r = [] ->
      parse_media_type (match opt_nonempty (w_ct r) with Some v => v | None => [] end) = (multipart_mixed_content_type, b) ->
      parse_multipart (match b with Some x => x | None => [] end) (w_body r) = None ->
+     serve r = Rejected400) /\
+  (forall r tm mt b,
+     opt_nonempty (w_override r) = Some tm -> w_method r = http_post -> w_rawquery r = [] ->
+     parse_media_type (match opt_nonempty (w_ct r) with Some v => v | None => [] end) = (mt, b) ->
+     mt <> form_urlencoded_content_type -> mt <> multipart_mixed_content_type ->
      serve r = Rejected400).
 Proof. exact TunnelProofs.malformed_tunnel_rejected. Qed.
-
-(* Not rejected although malformed (a finding of the current tree): the override header on a POST whose Content-Type is
-   neither the form nor the multipart one is accepted, and the request goes on to routing with a nil Body. *)
-Theorem override_with_other_content_type_nil_body :
-  exists r d, w_method r = http_post /\ w_body r <> [] /\ decode_tunnelled_query r = DOk d /\ d_body d = None.
-Proof. exact TunnelProofs.override_with_other_content_type_nil_body. Qed.
 
 (* What routing and resource code see is the same with tunnelling on (any threshold) or off. *)
 Theorem tunnel_transparent_end_to_end : forall b th verb path q body other,
@@ -109,5 +108,4 @@ Print Assumptions below_threshold_untouched.
 Print Assumptions threshold_exact.
 Print Assumptions multipart_parse_render.
 Print Assumptions malformed_tunnel_rejected.
-Print Assumptions override_with_other_content_type_nil_body.
 Print Assumptions tunnel_transparent_end_to_end.
